@@ -229,6 +229,7 @@ func runSimple2Bubble(sc scenario) result {
 		res.vals = append(res.vals, "no-termination")
 	}
 	swallow()
+	res.vals = append(res.vals, "goroutines", itoa(libGoroutines()))
 	return res
 }
 
